@@ -352,6 +352,10 @@ def dominated_by_guard(g, action_id, guards, want_kind=None):
     return None
 
 
+class Refuted(Exception):
+    pass
+
+
 def check_dispatcher(P, ctx):
     rule = 'C12.dispatcher-checks'
     # ---- Type_Of
@@ -378,31 +382,55 @@ def check_dispatcher(P, ctx):
     mg = guards_of(g, magic_pred)
     ok = bool(rets) and all(dominated_by_guard(g, n['id'], mg, 'ValueError') is not None for n in rets)
     ctx.check(ok, rule, 'Type_Of:magic', site(f), 'an object whose magic number is not CELLO_MAGIC_NUM raises ValueError before a type is returned')
-    # ---- Type_Method_At_Offset
+    # ---- Type_Method_At_Offset: evaluated (cint) for every combination of {class absent, present} x {member empty, set} x offsets
     f = P.fn('Type_Method_At_Offset')
-    g = P.cfg(f)
     ctx.fn(f)
-    inst_locals = [n['decl'] for n in g.live() if n.get('decl') and n['decl']['init'] is not None and
-                   any(ir.callee_name(c) == 'Type_Instance' for c in ir.calls(n['decl']['init']))]
-    if len(inst_locals) != 1:
-        ctx.undecided(rule, 'Type_Method_At_Offset:shape', site(f), 'instance lookup no longer bound to one local')
+    from . import cint
+    INST = 50000
+    bad = {'class': None, 'member': None}
+    unsup = None
+    ncase = 0
+    for offset in (0, 8, 24):
+        for inst in (0, INST):
+            for member in (0, 777):
+                def call(nm, e, it, inst=inst):
+                    if nm in ('Type_Instance', 'Type_Scan', 'type_instance'):
+                        return inst
+                    raise cint.NoEval('call %s' % nm)
+
+                def mem(a, it, inst=inst, offset=offset, member=member):
+                    if inst == 0:
+                        raise Refuted('reads through the instance although the type does not have the class')
+                    if a == inst + offset:
+                        return member
+                    if inst <= a < inst + 64:
+                        return 777 if member == 0 else 0          # every other member says the opposite
+                    raise Refuted('reads a word outside the instance')
+                it = cint.CInt(P, f, atoms={('global', 'NULL'): 0}, call=call, mem=mem, recurse=True)
+                try:
+                    r = it.run([7000, 7100, offset, 7200])
+                except Refuted as x:
+                    r = ('refuted', str(x), None)
+                ncase += 1
+                which = 'class' if inst == 0 else 'member'
+                if r[0] == 'stuck':
+                    unsup = '%s at %s' % (r[1], P.cfg(f).describe(r[2]))
+                    continue
+                if inst == 0 or member == 0:
+                    good = r[0] == 'term' and r[1] == ('throw', 'ClassError')
+                else:
+                    good = r[0] == 'ret' and r[1] == inst
+                if not good and bad[which] is None:
+                    got = 'raises %s' % (r[1][1] if isinstance(r[1], tuple) else r[1]) if r[0] == 'term' else ('returns %s' % (r[1],) if r[0] == 'ret' else r[1])
+                    bad[which] = 'class %s, member at offset %d %s: %s' % ('absent' if inst == 0 else 'present', offset, 'empty' if member == 0 else 'set', got)
+    ctx.stats['paths'] += ncase
+    if unsup:
+        ctx.undecided(rule, 'Type_Method_At_Offset:shape', site(f), 'the lookup leaves the evaluated fragment: ' + unsup)
     else:
-        inst = ('local', inst_locals[0]['name'])
-        ng = guards_of(g, lambda c, n: True if c == ('bin', '==', ('int', 0), inst) else (False if c == ('bin', '!=', ('int', 0), inst) else None))
-        derefs = [n for n in g.live() if n['expr'] is not None and n.get('decl') is not None and
-                  any(x[0] == 'un' and x[1] == '*' and util.mentions(x, lambda y: y[0] == 'local' and y[1] == inst[1]) for x in ir.walk(n['expr']))]
-        rets = [n for n in g.live() if n['kind'] == 'ret']
-        ok = bool(rets) and all(dominated_by_guard(g, n['id'], ng, 'ClassError') is not None for n in rets + derefs)
-        ctx.check(ok, rule, 'Type_Method_At_Offset:class', site(f), 'a type without the class raises ClassError before the instance is used or returned')
-        ok = False
-        if len(derefs) == 1:
-            meth = ('local', derefs[0]['decl']['name'])
-            mg2 = guards_of(g, lambda c, n: True if c == ('bin', '==', ('int', 0), meth) else (False if c == ('bin', '!=', ('int', 0), meth) else None))
-            # the member read is at the requested offset of the instance
-            rd = ir.nocast(derefs[0]['decl']['init'])
-            off_ok = rd[0] == 'un' and rd[1] == '*' and ir.canon(rd[2]) == ir.canon(('bin', '+', ('local', inst[1], None), ('param', 'offset', 2)))
-            ok = off_ok and all(dominated_by_guard(g, n['id'], mg2, 'ClassError') is not None for n in rets)
-        ctx.check(ok, rule, 'Type_Method_At_Offset:member', site(f), 'an empty member (read at the requested offset) raises ClassError before the instance is returned')
+        ctx.check(bad['class'] is None, rule, 'Type_Method_At_Offset:class', site(f), 'a type without the class raises ClassError before the instance is used or returned',
+                  [bad['class']] if bad['class'] else None)
+        ctx.check(bad['member'] is None, rule, 'Type_Method_At_Offset:member', site(f), 'an empty member (read at the requested offset) raises ClassError before the instance is returned',
+                  [bad['member']] if bad['member'] else None)
     # method() macro goes through method_at_offset -> Type_Method_At_Offset(Type_Of(self))
     for wrapper, inner in (('method_at_offset', 'Type_Method_At_Offset'), ('type_method_at_offset', 'Type_Method_At_Offset')):
         f = P.fn(wrapper)
